@@ -35,7 +35,26 @@ def run(rep):
         strings.append([rng.choice([97, 10, 32, 32, 32, 98, 9]) for _ in range(rng.randrange(4, 16))])
     # strings that survive the library's own value handling unchanged: the token type collapses white space on INPUT (C05), so keep
     # white space only in the xs:string typed text position; attribute position uses white-space-free strings plus explicit cases
-    job = {'seed': rep.seed, 'strings': strings, 'twins': 300 if quick else 5000}
+    # schema-generated checked elements with shuffled children, to be serialised alone and under unchecked ancestors
+    from . import docgen
+    g = json.load(open(os.path.join(C.BUILD, 'gen.json')))
+    G = docgen.Gen(g, rng)
+
+    def shuffle(n):
+        rng.shuffle(n['kids'])
+        for k in n['kids']:
+            shuffle(k)
+    nested = []
+    for name in sorted(g['elements']):
+        t = g['elements'][name][0]
+        t = t[6:] if t.startswith('<anon>') else t
+        if t in g['xsd_particles']:
+            for _ in range(1 if quick else 8):
+                d = G.element(name, 0, 2)
+                if len(d['kids']) >= 2:
+                    shuffle(d)
+                    nested.append(d)
+    job = {'seed': rep.seed, 'strings': strings, 'twins': 300 if quick else 5000, 'nested': nested}
     r = subprocess.run([C.PY, '-W', 'ignore', os.path.join(C.VERIF, 'corr', 'c16_runner.py')], input=json.dumps(job), capture_output=True, text=True,
                        env=C.impl_env(), timeout=3000)
     if r.returncode != 0:
@@ -75,6 +94,17 @@ def run(rep):
             rep.violation('two consecutive to_string() calls differ (scenario seed %d): %s' % (t['seed'], t['log'][:2]), {'scenario_seed': t['seed'], 'log': t['log']})
         if not t['inside']:
             rep.violation('a subtree serialises differently alone and inside its parent (scenario seed %d)' % t['seed'], {'scenario_seed': t['seed']})
+    n_nested = 0
+    for node, t in zip(nested, out.get('nested', [])):
+        if 'skip' in t:
+            continue
+        n_nested += 1
+        if 'exc' in t:
+            rep.violation('<%s>: serialising a checked element under unchecked ancestors raises %s' % (node['tag'], t['exc']), {'document_built': node, 'observed': t})
+        elif not (t['inside1'] and t['inside2'] and t['stable']):
+            rep.violation('<%s> (children supplied in shuffled order) serialises differently alone and inside unchecked ancestors' % node['tag'],
+                          {'document_built': node, 'alone': t.get('alone'), 'inside': t.get('in'), 'flags': {k: t[k] for k in ('inside1', 'inside2', 'stable')}})
+    rep.coverage['nested_under_unchecked'] = n_nested
     rep.coverage.update({'evaluations': len(strings) * 2 + len(out['twins']), 'distinct_nontrivial': len({tuple(s) for s in strings if any(c in (38, 60, 62, 34, 9, 10) or c > 127 for c in s)}) + len(out['twins']),
                          'traces_validated_against_impl': len(strings) * 2, 'strings': len(strings), 'twin_scenarios': len(out['twins']),
                          'rule': 'random strings over the XML Char range without CR (25% markup / quote / white-space characters, BMP and non-BMP) in a text and an attribute position; '
